@@ -1,3 +1,4 @@
+import Labella.Proofs.EngineTMulti
 import Labella.Model.LayoutSpec
 import Labella.Proofs.LayoutSep
 import Labella.Proofs.DistributeLemmas
@@ -6,6 +7,7 @@ import Labella.Proofs.SortEval
 import Labella.Model.EngineT
 import Labella.Proofs.EngineTLemmas
 import Labella.Proofs.EngineTEval
+import Labella.Proofs.EngineTMultiEval
 /-! # C06 — a layout is a pure function of the labels and options
 
 For every label list (ties, identical positions, labels wider than a layer, 1–2 labels) and every option set. -/
@@ -210,5 +212,75 @@ example :
         (Layout.compute (EngineT.World.run staleOps).engine.opts
           (EngineT.labelsOf (EngineT.World.run staleOps).store (EngineT.World.run staleOps).engine.nodes)) :=
   computeT_pure _ _ (world_good staleOps)
+
+/-! ### several engines alive at once (interleaved operations, shared list objects and node objects) -/
+
+/-- every engine of every world reachable by ANY interleaving of operations on ANY number of engines (creation, switching between
+them, re-configuration, fresh node lists, list objects registered with a second engine or registered again — in whatever order an
+in-place sort by another engine left them and whatever positions, layer numbers and stub links another engine's layout left in the
+node objects —, computes) is in a good state -/
+theorem mworld_good (ops : List EngineT.MOp) (k : Nat) :
+    Good (EngineT.MWorld.run ops).store ((EngineT.MWorld.run ops).engineAt k).nodes :=
+  Good.ofN ((EngineT.mworld_inv ops).engine_good k)
+
+/-- hence: a compute of ANY engine after ANY interleaving yields the pure layout of that engine's options and the data of its nodes -/
+theorem compute_after_any_interleaving (ops : List EngineT.MOp) (k : Nat) :
+    EngineT.observe (EngineT.computeT ((EngineT.MWorld.run ops).engineAt k) (EngineT.MWorld.run ops).store).2
+        ((EngineT.computeT ((EngineT.MWorld.run ops).engineAt k) (EngineT.MWorld.run ops).store).1.layers.getD []) =
+      EngineT.observePure ((EngineT.MWorld.run ops).engineAt k).opts
+        (EngineT.labelsOf (EngineT.MWorld.run ops).store ((EngineT.MWorld.run ops).engineAt k).nodes)
+        (((EngineT.MWorld.run ops).engineAt k).nodes.map (fun i => (EngineT.get (EngineT.MWorld.run ops).store i).data))
+        (Layout.compute ((EngineT.MWorld.run ops).engineAt k).opts
+          (EngineT.labelsOf (EngineT.MWorld.run ops).store ((EngineT.MWorld.run ops).engineAt k).nodes)) :=
+  computeT_pure _ _ (mworld_good ops k)
+
+-- non-vacuity: two engines alive at once.  Engine 0 (`overlap`, bounds 0…30) lays out list 0; engine 1 (algorithm `none`) is given
+-- the SAME list object, lays it out (which sorts the list object in place and overwrites positions, layer numbers and links of the
+-- shared node objects); then engine 0 computes again.
+def interOps : List EngineT.MOp :=
+  [.newEngine staleO1, .freshNodes permExL2, .compute,
+   .newEngine { staleO2 with algorithm := .none }, .useList 0, .compute, .switch 0]
+
+example :
+    -- (1) the list object engine 0 holds is no longer in creation order: engine 1's layout (algorithm `none`) sorted it in place …
+    (EngineT.MWorld.run interOps).lists = [[1, 4, 5, 2, 3, 0]] ∧
+    (EngineT.MWorld.run interOps).created = [[0, 1, 2, 3, 4, 5]] ∧
+    (EngineT.MWorld.run interOps).lists.head? ≠ (EngineT.MWorld.run interOps).created.head? ∧
+    (EngineT.MWorld.run interOps).cur = 0 ∧
+    -- (2) … and before engine 0's second compute its six nodes (in the order its `_nodes` now has) carry (parent, layer number, position) of
+    -- engine 1's single-layer layout (bounds 0 … 40, spacing 2), not of engine 0's own first layout (three layers, stubs 6–11) …
+    ((EngineT.MWorld.run interOps).engineAt 0).nodes.map (fun i =>
+        ((EngineT.get (EngineT.MWorld.run interOps).store i).parent,
+          (EngineT.get (EngineT.MWorld.run interOps).store i).layerIndex,
+          (EngineT.get (EngineT.MWorld.run interOps).store i).cur)) =
+      [(none, 0, -3), (none, 0, 7), (none, 0, 16), (none, 0, 25), (none, 0, 35), (none, 0, 44)] ∧
+    -- … which were, after engine 0's first compute, for the nodes in creation order:
+    ((EngineT.MWorld.run (interOps.take 3)).engineAt 0).nodes.map (fun i =>
+        ((EngineT.get (EngineT.MWorld.run (interOps.take 3)).store i).parent,
+          (EngineT.get (EngineT.MWorld.run (interOps.take 3)).store i).layerIndex,
+          (EngineT.get (EngineT.MWorld.run (interOps.take 3)).store i).cur)) =
+      [(none, 0, 26), (some 6, 2, 4), (none, 0, 14), (some 11, 1, 20), (some 8, 2, 15), (some 10, 1, 10)] ∧
+    -- (3) what engine 0's next compute records (payloads reported as positions in the list as created) is what a fresh single engine with
+    -- fresh nodes records under `staleO1` on `permExL2` …
+    (EngineT.MWorld.run (interOps ++ [.compute])).outs.map (·.1) = [0, 1, 0] ∧
+    ((EngineT.MWorld.run (interOps ++ [.compute])).outs.getLast?.map (·.2) ==
+      (EngineT.World.run [.newEngine staleO1, .freshNodes permExL2, .compute]).outs.getLast?) = true ∧
+    -- … with new stubs (ids 12–17) next to the six stale ones (ids 6–11) in the store
+    ((EngineT.MWorld.run (interOps ++ [.compute])).engineAt 0).layers =
+      some [[13, 15, 16, 2, 17, 0], [12, 14, 5, 3], [1, 4]] := by
+  -- `List.mergeSort` does not reduce in the kernel: evaluate the equal `MWorld.run'` / `World.run'` (stable insertion sort)
+  rw [← EngineT.MWorld.run'_eq, ← EngineT.World.run'_eq]
+  decide +kernel
+
+-- the theorem applies to that state (no evaluation needed: every engine of every reachable world is in a good state)
+example :
+    EngineT.observe (EngineT.computeT ((EngineT.MWorld.run interOps).engineAt 0) (EngineT.MWorld.run interOps).store).2
+        ((EngineT.computeT ((EngineT.MWorld.run interOps).engineAt 0) (EngineT.MWorld.run interOps).store).1.layers.getD []) =
+      EngineT.observePure ((EngineT.MWorld.run interOps).engineAt 0).opts
+        (EngineT.labelsOf (EngineT.MWorld.run interOps).store ((EngineT.MWorld.run interOps).engineAt 0).nodes)
+        (((EngineT.MWorld.run interOps).engineAt 0).nodes.map (fun i => (EngineT.get (EngineT.MWorld.run interOps).store i).data))
+        (Layout.compute ((EngineT.MWorld.run interOps).engineAt 0).opts
+          (EngineT.labelsOf (EngineT.MWorld.run interOps).store ((EngineT.MWorld.run interOps).engineAt 0).nodes)) :=
+  compute_after_any_interleaving interOps 0
 
 end Labella.C06
